@@ -554,7 +554,7 @@ Proof.
 Qed.
 
 (* ------------------------------------------------------------------ the variants of the While case *)
-(* the parameterised lowering with the policy of the code as written is the lowering of Lower.v *)
+(* the policy-generic lowering with the policy of the code as written is the lowering of Lower.v *)
 Lemma lower_lvs_with_real tmp names lvs : forall i n,
   lower_lvs_with tmp (policy_real names) i lvs n = lower_lvs tmp names lvs n.
 Proof.
